@@ -14,6 +14,7 @@ import (
 	"fmt"
 	"hash/fnv"
 	"os"
+	"path/filepath"
 	"sort"
 	"strings"
 	"sync"
@@ -121,6 +122,62 @@ func genFree(w *bufio.Writer, root string, seed uint64, n, ops int) {
 		nPub, nCons, nGet, nDel, nMisc := 1+r.intn(3), 1+r.intn(3), 1+r.intn(2), 1+r.intn(2), 1
 		if straddle {
 			nPub, nDel = 3, 2
+		}
+		// "cold" histories: the log already holds a few segments, written by an earlier session, and the index files of
+		// (most of) its closed segments are missing - a supported state: they are rebuilt on first use. Several readers
+		// then meet a closed segment for the first time at the same moment.
+		cold := !straddle && r.intn(4) == 0
+		if cold {
+			cr := &rng{s: r.next()}
+			for i, n := 0, 10+cr.intn(14); i < n; i++ {
+				nm := 1 + cr.intn(2)
+				msgs := make([]klevdb.Message, nm)
+				for j := range msgs {
+					msgs[j] = klevdb.Message{Key: []byte(fmt.Sprintf("k%d", cr.intn(6))), Value: randBytes(cr, 40+cr.intn(160)), Time: time.UnixMicro(tclock.Add(1)).UTC()}
+					if nowTimes {
+						msgs[j].Time = time.Time{}
+					}
+				}
+				rec.do(0, func() string {
+					var sb strings.Builder
+					fmt.Fprintf(&sb, "pub %d", nm)
+					for _, m := range msgs {
+						fmt.Fprintf(&sb, " %d:%d:%s:%s", m.Time.UnixMicro(), m.Time.UnixMicro(), hex.EncodeToString(m.Key), frVal(m.Value))
+					}
+					return sb.String()
+				}, func() string {
+					next, perr := l.Publish(msgs)
+					if perr != nil {
+						return errRes(perr)
+					}
+					known.Store(next)
+					return fmt.Sprintf("ok %d", next)
+				})
+			}
+			_ = l.Close()
+			ents, _ := os.ReadDir(dir)
+			var idx []string
+			for _, e := range ents {
+				if strings.HasSuffix(e.Name(), ".index") {
+					idx = append(idx, e.Name())
+				}
+			}
+			sort.Strings(idx)
+			removed := 0
+			for i, name := range idx {
+				if i < len(idx)-1 && cr.chance(75) {
+					_ = os.Remove(filepath.Join(dir, name))
+					removed++
+				}
+			}
+			l, err = klevdb.Open(dir, klevdb.Options{KeyIndex: true, TimeIndex: true, Rollover: roll, AutoSync: as,
+				Version: klevdb.VersionOptions{NewSegmentsVersion: klevdb.V2, KeepRewriteVersion: keep}})
+			if err != nil {
+				fmt.Fprintf(w, "fr.cold => %s\n", errRes(err))
+				continue
+			}
+			fmt.Fprintf(w, "fr.cold segments=%d indexes-removed=%d => ok\n", len(idx), removed)
+			nCons, nGet = 3, 2
 		}
 		var wg sync.WaitGroup
 		gid := 0
